@@ -390,3 +390,69 @@ func FailTB(tb testing.TB, rec *Recorder, c any, format string, args ...any) {
 	tb.Helper()
 	tb.Fatalf("%s", rec.Violation(c, format, args...))
 }
+
+// Finding is one entry of /verif/known_findings.json (committed; never
+// written at run time).
+type Finding struct {
+	Property string         `json:"property"`
+	ID       string         `json:"id"`
+	Status   string         `json:"status"` // "known" or "fixed"
+	Commit   string         `json:"commit,omitempty"`
+	Class    string         `json:"class"`
+	Params   map[string]any `json:"params,omitempty"`
+	What     string         `json:"what"`
+}
+
+// Findings returns the entries recorded for a property. Only entries with
+// status "known" may be used to exclude cases; "fixed" entries suppress
+// nothing.
+func Findings(prop string) []Finding {
+	path := os.Getenv("VERIF_KNOWN")
+	if path == "" {
+		path = "/verif/known_findings.json"
+	}
+	data, err := os.ReadFile(path)
+	if err != nil {
+		return nil
+	}
+	var file struct {
+		Findings []Finding `json:"findings"`
+	}
+	if json.Unmarshal(data, &file) != nil {
+		return nil
+	}
+	var out []Finding
+	for _, f := range file.Findings {
+		if f.Property == prop {
+			out = append(out, f)
+		}
+	}
+	return out
+}
+
+// KnownClass tells whether a finding of the given class is listed as "known"
+// (still open) for the property.
+func KnownClass(prop, class string) (Finding, bool) {
+	for _, f := range Findings(prop) {
+		if f.Class == class && f.Status == "known" {
+			return f, true
+		}
+	}
+	return Finding{}, false
+}
+
+// Excluded counts a generated case that was skipped because it belongs to a
+// known finding's class.
+func (r *Recorder) Excluded(class string) { r.Class("excluded-known/" + class) }
+
+// ReportKnown prints the KNOWN-FINDING line for a listed finding whose
+// canonical instance was just re-executed and still fails.
+func (r *Recorder) ReportKnown(f Finding) {
+	fmt.Printf("KNOWN-FINDING: property=%s %s: %s\n", r.prop, f.ID, f.What)
+}
+
+// Inconclusive prints a marker that makes the driver exit 2 (no verdict), for
+// timing-dependent checks that could not reach a stable verdict.
+func Inconclusive(format string, args ...any) {
+	fmt.Printf("VERIF-INCONCLUSIVE %s\n", fmt.Sprintf(format, args...))
+}
